@@ -40,12 +40,12 @@ theorem PBuf.readLoop_fields (b : PBuf) (r : Reader) :
   | case4 b r h t b' hg e hb hr =>
     obtain ⟨a, c, d⟩ := PBuf.grow_if hg
     exact ⟨by rw [a]; exact List.prefix_refl _, c, d⟩
-  | case5 b r h t b' hg e hb mx ec rest hr sz n ec' hec =>
+  | case5 b r h t b' hg e hb mx ec rest hr sz n r' b'' hec =>
     obtain ⟨a, c, d⟩ := PBuf.grow_if hg
     refine ⟨?_, c, d⟩
     show b.data <+: b'.data ++ _
     rw [a]; exact List.prefix_append _ _
-  | case6 b r h t b' hg e hb mx ec rest hr sz n ec' r' b'' hec ih =>
+  | case6 b r h t b' hg e hb mx ec rest hr sz n r' b'' hec ih =>
     obtain ⟨a, c, d⟩ := PBuf.grow_if hg
     obtain ⟨i1, i2, i3⟩ := ih
     refine ⟨?_, by rw [i2]; exact c, by rw [i3]; exact d⟩
